@@ -6,7 +6,7 @@ V = os.path.dirname(os.path.dirname(os.path.abspath(__file__)))
 os.chdir(V)
 
 def seeds():
-    rows = ['| seed | property | what was changed (short) | needs to manifest | quick check with the change |', '|---|---|---|---|---|']
+    rows = ['| seed | property | what was changed (short) | needs to manifest | quick check with the change (first confirmation; later work) | final re-run on /repo HEAD |', '|---|---|---|---|---|---|']
     for d in sorted(glob.glob('seeded/*/')):
         try:
             m = json.load(open(d + 'meta.json'))
@@ -28,9 +28,11 @@ def seeds():
         def short(s, n):
             s = ' '.join(str(s or '').split())
             return (s[:n] + '…') if len(s) > n else s
-        rows.append('| %s | %s | %s | %s | %s |' % (os.path.basename(d.rstrip('/')), m.get('property'),
+        fr = m.get('final_rerun')
+        rows.append('| %s | %s | %s | %s | %s | %s |' % (os.path.basename(d.rstrip('/')), m.get('property'),
                     short(m.get('summary'), 260).replace('|', '\\|'),
-                    short(m.get('needs_to_manifest') or m.get('needs'), 200).replace('|', '\\|'), how))
+                    short(m.get('needs_to_manifest') or m.get('needs'), 200).replace('|', '\\|'), how.replace('|', '\\|'),
+                    ('%s: %s' % (fr.get('repo_head'), 'DETECTED, concrete replay' if fr.get('concrete_replay') else ('detected, no-failing-input-found' if fr.get('detected') else 'MISSED'))) if fr else '-'))
     return '\n'.join(rows)
 
 def status():
